@@ -142,6 +142,29 @@ def tlc_simulate(module, cfg, num, depth, seed, var='last', timeout=600, extra=N
         return behaviours
 
 
+def tlc_counterexample(module, cfg, var='last', workers=None, timeout=900, extra=None):
+    """Runs TLC expecting an invariant violation; returns (violated_names, behaviour) where the
+    behaviour has the same shape as tlc_simulate's (list of dict(label, last, body)), or
+    ([], None) when TLC finishes without a violation."""
+    with scratch('cex') as d:
+        _stage_specs(d, extra)
+        cmd = ['tlc', '-workers', str(workers or NCPU), '-metadir', os.path.join(d, 'meta'), '-config', cfg,
+               '-noGenerateSpecTE', module]
+        rc, out, wall = _run(cmd, d, _tlc_env(d), timeout)
+        if rc is None:
+            raise Inconclusive('TLC timed out on %s' % cfg)
+        names = re.findall(r'Invariant (\S+) is violated', out)
+        if not names:
+            if 'No error has been found' in out:
+                return [], None
+            raise Inconclusive('TLC failed on %s: %s' % (cfg, out[-2000:]))
+        steps = []
+        for m in re.finditer(r'^State \d+: <(.*?)>\n(.*?)(?=^State \d+:|\Z|^\d+ states generated)', out, re.S | re.M):
+            label = re.sub(r' line \d+, col.*$', '', m.group(1))
+            steps.append({'label': label, 'last': tlaval.state_var(m.group(2), var) if var else None, 'body': m.group(2)})
+        return names, steps
+
+
 def tlc_trace(module, cfg, ndjson, timeout=900, extra=None, deque=False):
     """Validate recorded traces.  Returns dict(fails=[(kind, tid, line, action, name)],
     lines=<number of trace lines>, validated=<lines TLC consumed>, out)."""
